@@ -228,19 +228,31 @@ class Engine:
         self.inlined = set()
         self.func_axioms = []               # axioms generated for UF summaries during this function
         self.int_bound_cache = {}
+        self._q_cache = {}
+        self._abs_cache = {}
 
     # ------------------------------------------------------------------------------------------------ terms
 
-    def fresh(self, name, ty):
-        return V(z3.Const("%s!%d" % (name, next(self.fresh_counter)), to_sort(ty, self.reg)), ty)
+    def fresh(self, name, ty, st=None):
+        return V(self.fresh_term(name, to_sort(ty, self.reg), st), ty)
 
-    def fresh_term(self, name, sort):
-        return z3.Const("%s!%d" % (name, next(self.fresh_counter)), sort)
+    def fresh_term(self, name, sort, st=None):
+        """fresh constant; under enclosing bound variables (comprehension / quantifier index) a fresh *function* of
+        them, so that a havoced value may differ from one element to the next"""
+        n = "%s!%d" % (name, next(self.fresh_counter))
+        if st is not None and st.bound:
+            f = z3.Function(n, *([b.sort() for b in st.bound] + [sort]))
+            return f(*st.bound)
+        return z3.Const(n, sort)
 
     def uf(self, name, *sorts):
-        if name not in self.ufs:
-            self.ufs[name] = z3.Function(name, *sorts)
-        return self.ufs[name]
+        """uninterpreted function, one per (name, argument sorts)"""
+        from .types import sort_name
+        key = name + '/' + ','.join(sort_name(s) for s in sorts[:-1])
+        if key not in self.ufs:
+            zname = name if not any(k.startswith(name + '/') for k in self.ufs) else key
+            self.ufs[key] = z3.Function(zname, *sorts)
+        return self.ufs[key]
 
     def ty_of(self, v):
         if isinstance(v, V):
@@ -348,13 +360,97 @@ class Engine:
         self.solver_calls += 1
         return r, s
 
-    def feasible(self, st):
-        r, _ = self.check_sat(st.pc, 1500)
-        return r != z3.unsat
+    def hard_for_pruning(self, e):
+        """quantified, or using sequence operations (z3 is slow to find *models* with them; pruning only needs
+        quick refutations, and dropping hypotheses is always sound for pruning)"""
+        k = e.get_id()
+        c = self._q_cache.get(k)
+        if c is not None:
+            return c[0]
+        todo = [e]
+        seen = set()
+        found = False
+        while todo and not found:
+            x = todo.pop()
+            i = x.get_id()
+            if i in seen:
+                continue
+            seen.add(i)
+            if z3.is_quantifier(x):
+                found = True
+            elif z3.is_app(x):
+                dk = x.decl().kind()
+                if z3.Z3_OP_SEQ_UNIT <= dk <= z3.Z3_OP_SEQ_FOLDLI and dk not in (z3.Z3_OP_SEQ_LENGTH, z3.Z3_OP_SEQ_NTH, z3.Z3_OP_SEQ_EMPTY):
+                    found = True
+                else:
+                    todo.extend(x.children())
+        self._q_cache[k] = (found, e)       # keep e alive: ast ids are reused after collection
+        return found
 
-    def entails(self, st, goal, timeout_ms=3000):
-        r, _ = self.check_sat(st.pc + [z3.Not(goal)], timeout_ms)
-        return r == z3.unsat
+    def has_quantifier(self, e):
+        return self.hard_for_pruning(e)
+
+    def ground(self, formulas):
+        """the quantifier-free part of a list of hypotheses (dropping hypotheses is always sound for pruning)"""
+        return [f for f in formulas if isinstance(f, z3.ExprRef) and not self.has_quantifier(f)]
+
+    def abstract_seq(self, e, side):
+        """replace seq.len / seq.nth by uninterpreted functions (every model of e yields one of the result, so a
+        refutation of the abstraction is a refutation of e); used for pruning checks only"""
+        k = e.get_id()
+        c = self._abs_cache.get(k)
+        if c is not None:
+            side.extend(c[1])
+            return c[0]
+        # collect len/nth subterms, innermost first
+        found = []
+        seen = set()
+
+        def walk(x):
+            i = x.get_id()
+            if i in seen or not z3.is_app(x):
+                return
+            seen.add(i)
+            for ch in x.children():
+                walk(ch)
+            if x.decl().kind() in (z3.Z3_OP_SEQ_LENGTH, z3.Z3_OP_SEQ_NTH):
+                found.append(x)
+        walk(e)
+        pairs = []
+        myside = []
+        for x in found:
+            kids = [z3.substitute(ch, *pairs) if pairs else ch for ch in x.children()]
+            if x.decl().kind() == z3.Z3_OP_SEQ_LENGTH:
+                r = z3.Function('len!abs', kids[0].sort(), z3.IntSort())(kids[0])
+                myside.append(r >= 0)
+            else:
+                r = z3.Function('nth!abs', kids[0].sort(), z3.IntSort(), x.sort())(kids[0], kids[1])
+            pairs.append((x, r))
+        r = z3.substitute(e, *pairs) if pairs else e
+        self._abs_cache[k] = (r, myside, e)
+        side.extend(myside)
+        return r
+
+    def check_ground(self, formulas, timeout_ms):
+        s = self._solver(timeout_ms)
+        side = []
+        for a in self.ground(self.axioms + self.func_axioms + list(formulas)):
+            s.add(self.abstract_seq(a, side))
+        for a in side:
+            s.add(a)
+        t0 = time.time()
+        r = s.check()
+        self.solver_seconds += time.time() - t0
+        self.solver_calls += 1
+        return r
+
+    def feasible(self, st):
+        """False only if the path condition is certainly contradictory (quantifier-free part, short budget)"""
+        return self.check_ground(st.pc, 120) != z3.unsat
+
+    def entails(self, st, goal, timeout_ms=150):
+        """True only if the quantifier-free part of the path condition certainly implies goal"""
+        return self.check_ground(list(st.pc) + [z3.Not(goal)], timeout_ms) == z3.unsat
 
     def oblige(self, st, goal, name, where=''):
         """record a proof obligation: pc |= goal"""
